@@ -107,6 +107,9 @@ pub const DOCS: &[&str] = &[
     "<html><head><meta name=\"a\" content=\"b\"></meta></head><body><div><hr/></hr>text<input></input></div><div>second</br></div></body></html>",
     "<html><body><div>1 < 2 and 3 > 2, a<b, x <= y</div><p>if (a<b) { caf\u{e9} }</p></body></html>",
     "<html><head><base href=/><script>x</script><style>y</style></head><body><main><article><section><h1>T</h1><p>P <em>e</em> <a href=#>l</a></p></section></article></main><footer>f</footer></body></html>",
+    // raw-text elements with plain content (no markup-looking text): targets of filters in their own right
+    "<html><head><style>p { color: red }</style><script>var a = 1;</script><title>plain</title></head><body><noscript>no script</noscript><div>x</div><script>var b = 2;</script></body></html>",
+    "<html><head><STYLE>p{}</STYLE><script src=a.js></script></head><body><noscript></noscript><iframe>frame text</iframe><xmp>x m p</xmp></body></html>",
 ];
 
 pub fn html_documents() -> Vec<Vec<u8>> {
